@@ -16,3 +16,17 @@ VARIANTS += [
  V("c01-s1-elided-singledel-consumes-setwithdel", "C01", "C17.S1", "internal/compact/iterator.go",
    "			case base.InternalKeyKindSetWithDelete:\n				// The SingleDelete should behave like a Delete.\n				i.skipInStripe()\n				return\n			case base.InternalKeyKindSet, base.InternalKeyKindMerge:", "			case base.InternalKeyKindSet, base.InternalKeyKindSetWithDelete, base.InternalKeyKindMerge:"),
 ]
+VARIANTS += [
+ V("c27-k1-datablock-tag-without-invalidate", "C27", "C27.K1", "sstable/reader_iter_single_lvl.go",
+   "	// Ensure the data block iterator is invalidated even if loading of the block\n	// fails.\n	PD(&i.data).Invalidate()\n	i.dataBH = bhp.Handle\n", "	i.dataBH = bhp.Handle\n"),
+]
+VARIANTS += [
+ V("c37-o4-efos-skips-flushable-ingests", "C37", "C37.O4", "snapshot.go",
+   "	for i := range d.mu.mem.queue {\n		d.mu.mem.queue[i].computePossibleOverlaps(func(bounded) shouldContinue {\n			isFileOnly = false", "	for i := range d.mu.mem.queue {\n		if _, ok := d.mu.mem.queue[i].flushable.(*ingestedFlushable); ok {\n			continue\n		}\n		d.mu.mem.queue[i].computePossibleOverlaps(func(bounded) shouldContinue {\n			isFileOnly = false"),
+]
+VARIANTS += [
+ V("c40-r1-rejected-ratchet-clears-flag", "C40", "C40.R1", "format_major_version.go",
+   "	if d.mu.formatVers.ratcheting {\n		return errors.Newf(\"pebble: database format major version upgrade is in-progress\")\n	}\n	d.mu.formatVers.ratcheting = true\n	defer func() { d.mu.formatVers.ratcheting = false }()\n", "	inProgress := d.mu.formatVers.ratcheting\n	d.mu.formatVers.ratcheting = true\n	defer func() { d.mu.formatVers.ratcheting = false }()\n	if inProgress {\n		return errors.Newf(\"pebble: database format major version upgrade is in-progress\")\n	}\n"),
+ V("c07-w1-placeholder-marked-applied-early", "C07", "C06.W1", "commit.go",
+   "	p.mu.Unlock()\n\n	// Invoke the apply callback.\n	apply(b.SeqNum())", "	p.mu.Unlock()\n	b.applied.Store(true)\n\n	// Invoke the apply callback.\n	apply(b.SeqNum())"),
+]
